@@ -10,6 +10,7 @@ structure GoodFacts (F : Facts15) : Prop where
   var : F.varRule = .ownPerClass
   varX : F.varRuleX = .ownPerClass
   col : F.colCopy = .deep
+  prot : F.protCopy = .copied
 
 theorem impl_append (F : Facts15) [DeepCopy F] (fuel : Nat) (name : String) (t : Nat) : Impl (appendImpl F fuel name t) :=
   ⟨fun _ _ _ v hv => good_appendImpl F fuel name t v hv, fun v => keeps_appendImpl F fuel name t v⟩
@@ -48,7 +49,7 @@ theorem evolveOp_ext (impl : Nat → M Unit) (hi : Impl impl) (h : Heap) (ih : I
     `touched` and the public part of every existing `Attributes` as they were -/
 theorem frame_ext (F : Facts15) (gf : GoodFacts F) (fuel : Nat) (h : Heap) (ih : Inv h) (op : Op) :
     Ext h.cls.length h.attrs.length (touched F h op) h (apply F fuel h op).heap := by
-  haveI : DeepCopy F := ⟨gf.col⟩
+  haveI : DeepCopy F := ⟨gf.col, gf.prot⟩
   cases hop : op.derives with
   | true =>
     have e := derive_ext F gf.mand fuel h op hop
